@@ -287,11 +287,13 @@ pub struct GenOpts {
     pub min_kf: usize,
     /// allow positions that are distinct but only an ulp (or a denormal) apart — "instant steps"
     pub adjacent: bool,
+    /// allow negative delays (the timeline is already running at t = 0); not used for animators
+    pub neg_delay: bool,
 }
 
 impl Default for GenOpts {
     fn default() -> Self {
-        GenOpts { max_kf: 8, repeats: true, random_pos: true, rec: true, back: true, min_kf: 0, adjacent: true }
+        GenOpts { max_kf: 8, repeats: true, random_pos: true, rec: true, back: true, min_kf: 0, adjacent: true, neg_delay: false }
     }
 }
 
@@ -364,8 +366,13 @@ pub fn gen_positions(r: &mut Rng, n: usize, o: &GenOpts) -> Vec<f32> {
 
 /// A random timeline over the animated fields `kinds`, keyframes in ascending position order.
 pub fn gen_tl(r: &mut Rng, kinds: &[Kind], o: &GenOpts) -> TlSpec {
-    let (cycle, delay, repeat, reverse) = gen_timing_exact(r);
-    let n = o.min_kf + r.usize(o.max_kf - o.min_kf + 1);
+    let (cycle, mut delay, repeat, reverse) = gen_timing_exact(r);
+    if o.neg_delay && r.chance(1, 8) {
+        delay = *r.pick(&[-0.25f32, -0.5, -1.0]);
+    }
+    // now and then many keyframes (binary search depth, index maps)
+    let max_kf = if o.max_kf >= 8 && r.chance(1, 12) { 12 + r.usize(20) } else { o.max_kf };
+    let n = o.min_kf + r.usize(max_kf - o.min_kf + 1);
     let ps = gen_positions(r, n, o);
     let dense = r.chance(1, 2);
     let mut kfs = Vec::new();
